@@ -221,12 +221,14 @@ pub enum Step {
     PagedEntriesEarly,
     /// the server sends an IntermediateResponse under the ID of a pending extended operation
     SingleGetsIntermediate,
-    /// a single operation and a second search through an open stream's own handle, the outer
-    /// stream finished early
+    /// a single operation through an open stream's own handle, the stream finished early
     ThroughStreamHandle,
+    /// a second search through an open stream's own handle, the outer stream finished early
+    /// while the inner one runs
+    InnerSearchThroughHandle,
 }
 
-pub const ALL_STEPS: [Step; 20] = [
+pub const ALL_STEPS: [Step; 21] = [
     Step::SingleOk,
     Step::SingleErr,
     Step::TimedOut,
@@ -247,6 +249,7 @@ pub const ALL_STEPS: [Step; 20] = [
     Step::PagedEntriesEarly,
     Step::SingleGetsIntermediate,
     Step::ThroughStreamHandle,
+    Step::InnerSearchThroughHandle,
 ];
 
 /// append the calls of one step (markers are made unique with `tag`)
@@ -336,18 +339,21 @@ fn push_step(s: &mut Scenario, script: &mut Vec<Call>, step: Step, tag: &str) {
             }
         }
         Step::ThroughStreamHandle => {
+            script.extend([start(&m("so"), Chain::Direct), Call::SingleViaStream { kind: OpKind::Compare, marker: m("sc") }, Call::Next, Call::Finish]);
+            s.plans.insert(m("so"), plan_items(&[E, E]));
+        }
+        Step::InnerSearchThroughHandle => {
             script.extend([
-                start(&m("so"), Chain::Direct),
-                Call::SingleViaStream { kind: OpKind::Compare, marker: m("sc") },
-                Call::StartInner { marker: m("si") },
+                start(&m("to"), Chain::Direct),
+                Call::StartInner { marker: m("ti") },
                 Call::Next,
                 Call::Finish,
                 Call::NextInner,
                 Call::NextInner,
                 Call::FinishInner,
             ]);
-            s.plans.insert(m("so"), plan_items(&[E, E]));
-            s.plans.insert(m("si"), plan_items(&[E]));
+            s.plans.insert(m("to"), plan_items(&[E, E]));
+            s.plans.insert(m("ti"), plan_items(&[E]));
         }
         Step::Unsolicited => {
             script.push(single(OpKind::Bind, &m("un")));
@@ -439,7 +445,9 @@ pub fn c13(tier: Tier) -> Vec<Scenario> {
     }
     if tier == Tier::Thorough {
         for (a, b) in &pairs {
-            if *a <= b_ord(*b, *a) {
+            // (the seven-call inner-search step runs alone and in sequences only: next to a second
+            // client it multiplies the state space by three orders of magnitude)
+            if *a <= b_ord(*b, *a) && *a != Step::InnerSearchThroughHandle && *b != Step::InnerSearchThroughHandle {
                 out.push(c13_pair(*a, *b));
             }
         }
@@ -982,15 +990,14 @@ pub fn c12(tier: Tier) -> Vec<Scenario> {
             client(vec![
                 Call::Start { marker: "s".into(), chain: Chain::EntriesOnly, timeout: Some(10), ctrl: false, opts: false, own_paging: false },
                 Call::Next,
-                Call::Next,
                 Call::Finish,
             ]),
-            client(vec![tsingle(OpKind::Compare, "t0", 10), single(OpKind::Bind, "a1")]),
+            client(vec![tsingle(OpKind::Compare, "t0", 10)]),
             client(vec![single(OpKind::Delete, "b0")]),
         ];
         s.plans.insert("s".into(), plan_items(&[E]));
-        s.tick_budget = 3;
-        s.select_starts = vec![0, 1];
+        s.tick_budget = 2;
+        s.select_starts = vec![1];
         s.oracles = o.clone();
         out.push(s);
         let mut s = Scenario::new("C12/two-timed-different-timeouts");
